@@ -153,7 +153,7 @@ def families(tier, seed):
         fams = [sigma.fam(a, 4, ['3.6', '3.8', '3.12', '3.14']) for a in ('ws', 'blocks', 'strs', 'ops', 'stm', 'stm2')]
         fams += [sigma.fam(a, 3, V, name='%s<=3/all' % a) for a in ('ws', 'blocks', 'strs', 'ops', 'stm', 'stm2')]
     if tier == 'quick':
-        fams += [sigma.g3('3.8', 4), sigma.g3('3.13', 4, slice_mod=4, slice_eq=seed % 4)]
+        fams += [sigma.g3('3.8', 4, slice_mod=8, slice_eq=seed % 8), sigma.g3('3.13', 4, slice_mod=16, slice_eq=seed % 16)]
     else:
         fams += [sigma.g3(v, 6) for v in ('3.8', '3.13')]
     return fams
